@@ -4,6 +4,9 @@ import lib
 from gen import xpathgen as G
 
 BINDINGS = "p=urn:u1;q=urn:u2"
+# caller configurations: the library also lets the caller bind a DEFAULT namespace (it then qualifies unprefixed ELEMENT name
+# tests and nothing else); every check that varies the configuration draws from these
+BINDING_VARIANTS = [BINDINGS, BINDINGS, "=urn:u1;p=urn:u1;q=urn:u2", "=urn:u2;p=urn:u1;q=urn:u2", "p=urn:u1;q=urn:u2;=urn:u1"]
 
 
 def strip_impl(field):
